@@ -287,15 +287,12 @@ func (sc *scen) harnessf(format string, a ...interface{}) {
 
 var scenCounter uint64
 
-// zapDead is set when the watcher's "processed new header" log line was not recognised (text changed): the rendezvous then
-// falls back to counting polls
-var zapDead atomic.Bool
-
 func startScen(cfg scenCfg) (*scen, error) {
 	ss, err := startSim(cfg.Head0)
 	if err != nil {
 		return nil, err
 	}
+	ss.sim.lastProcessed = cfg.Head0
 	sc := &scen{cfg: cfg, ss: ss, sim: ss.sim, msgC: make(chan *common.MessagePublication, 4096), obsvC: make(chan *gossipv1.ObservationRequest),
 		logs: map[int]*simLog{}, insts: map[[4]uint64]*gtInst{}, stats: map[string]int{}}
 	setC := make(chan *common.GuardianSet, 8)
@@ -342,6 +339,16 @@ func startScen(cfg scenCfg) (*scen, error) {
 		sc.stop()
 		return nil, fmt.Errorf("watcher did not become ready")
 	}
+	// the block poller runs in its own supervised goroutine and takes the node's head at THAT moment as its first lastBlock (a head
+	// it never publishes): wait until it has done so, so that every head the script sets afterwards is new to it
+	if !waitUntil(rendezvousTimeout, func() bool {
+		ss.sim.mu.Lock()
+		defer ss.sim.mu.Unlock()
+		return ss.sim.pollsArrived >= 1
+	}) {
+		sc.stop()
+		return nil, fmt.Errorf("the block poller did not fetch its first block")
+	}
 	// the log subscription is the only filter on the primary path: it must name the configured contract and the topic
 	ss.sim.mu.Lock()
 	okA := len(ss.sim.critAddr) == 1 && ss.sim.critAddr[0] == evmContract
@@ -369,6 +376,9 @@ func (sc *scen) pendingSnapshot() map[[4]uint64]uint64 {
 	return out
 }
 
+// pendingEmptyNoLock is for diagnostics only (racy read of the map length)
+func (sc *scen) pendingEmptyNoLock() bool { return len(sc.w.pending) == 0 }
+
 func (sc *scen) pendingEmpty() bool {
 	sc.w.pendingMu.Lock()
 	n := len(sc.w.pending)
@@ -376,12 +386,13 @@ func (sc *scen) pendingEmpty() bool {
 	return n == 0
 }
 
-// settle waits until the watcher has processed the node's current head (or has nothing pending: the poller is then switched off)
+// settle waits until the watcher has processed the node's current head (its own "processing / processed new header" log lines
+// are the trace of head processing), or has nothing pending: the poller is then switched off.  The head the node had when the
+// poller started is never published (the poller publishes only heads above its lastBlock), so it counts as processed.
 func (sc *scen) settle(what string) {
 	sc.sim.mu.Lock()
 	p0 := sc.sim.pollsArrived
 	sc.sim.mu.Unlock()
-	t0 := time.Now()
 	ok := waitUntil(rendezvousTimeout, func() bool {
 		if sc.died.Load() != nil {
 			return true
@@ -389,13 +400,6 @@ func (sc *scen) settle(what string) {
 		empty := sc.pendingEmpty()
 		sc.sim.mu.Lock()
 		defer sc.sim.mu.Unlock()
-		if !sc.sim.zapScanSeen && (zapDead.Load() || time.Since(t0) > 3*time.Second) {
-			if sc.sim.pollsArrived >= p0+5 || empty {
-				zapDead.Store(true)
-				return true
-			}
-			return false
-		}
 		for i := len(sc.sim.scans) - 1; i >= 0 && i >= len(sc.sim.scans)-3; i-- {
 			if sc.sim.scans[i].Open {
 				return false
@@ -404,7 +408,17 @@ func (sc *scen) settle(what string) {
 		return empty || sc.sim.lastProcessed >= sc.sim.head
 	})
 	if !ok {
-		sc.harnessf("rendezvous timeout after %s (head %d, last processed %d)", what, sc.sim.head, sc.sim.lastProcessed)
+		sc.sim.mu.Lock()
+		open := 0
+		for _, x := range sc.sim.scans {
+			if x.Open {
+				open++
+			}
+		}
+		enabled := sc.w.ethConn != nil && sc.w.ethConn.enabled.Load()
+		sc.harnessf("rendezvous timeout after %s (head %d, last processed %d; polls served during the wait %d, failed polls so far %d, scans %d of which unfinished %d, poller enabled %v, pending empty %v)",
+			what, sc.sim.head, sc.sim.lastProcessed, sc.sim.pollsArrived-p0, sc.sim.pollsFailed, len(sc.sim.scans), open, enabled, sc.pendingEmptyNoLock())
+		sc.sim.mu.Unlock()
 	}
 }
 
@@ -460,7 +474,7 @@ func (sc *scen) runStep(si int, st *step) {
 	sim := sc.sim
 	sim.mu.Lock()
 	lk0, sc0 := len(sim.lookups), len(sim.scans)
-	head0 := sim.head
+	_ = sim.head
 	sim.mu.Unlock()
 	g := group{Step: si}
 	var reobsInfo *mReobs
@@ -734,15 +748,9 @@ func (sc *scen) runStep(si int, st *step) {
 		}
 	}
 	allLk := sim.lookups
-	zapAlive := sim.zapScanSeen
 	headNow := sim.head
 	rcptOf := func(tx int) *simRcpt { return sim.rcpts[tx] }
 	sim.mu.Unlock()
-	if !zapAlive && headNow > head0 && len(pendBefore) > 0 {
-		// the watcher's log lines were not recognised: fall back to "the head that was served"
-		scans = append(scans, scanRec{N: headNow, From: lk0, To: lk0 + len(lookups)})
-		sc.stats["fallback_scans"]++
-	}
 	scanLk := func(s scanRec) []lookupRec {
 		var out []lookupRec
 		for _, lk := range allLk[s.From:s.To] {
